@@ -10,6 +10,9 @@ code as it is after the repairs `fixes/C01-{a,b,c}.patch`);
 every level; the scope of an assignment is a function of its own prefix and the current
 `\globaldefs` only). Helper lemmas: `Lemmas/C01.lean`, `Lemmas/C01Cor.lean`.
 
+* `vm_refines_run_partial`, `vm_refines_run_full_statement(_false)` — against TeX's own semantics
+  (`Spec.runTeX`) the refinement holds for every program that never executes a `\let` from an
+  undefined name and fails at the witness of the known finding C01-d.
 * `vm_refines_run` — every finite program (any depth, any interleaving of local and global
   assignments to any targets, reads anywhere, a stray `}` included): `M` and `S` produce the same
   outputs. `vm_simulation` is the state-level form, `vm_total` says that no `unwrap` of
@@ -24,10 +27,39 @@ namespace C01.Thm
 open C01 C20
 
 /-- **Refinement.** For every program, the reads (and the fatal error, if any) of the VM model are
-those of the stack-of-environments semantics. -/
+those of the stack-of-environments semantics `Spec.run` — TeX's semantics with the single recorded
+deviation C01-d built in (`\let` from an undefined name does nothing); see `vm_refines_run_partial`
+for TeX's own semantics. -/
 theorem vm_refines_run (hist : List Op) :
     (run .fixed VMState.init hist).2 = (Spec.init.run hist).2 :=
   C01.outs_eq hist
+
+/-- The property's refinement in full: against TeX's own semantics (`Spec.runTeX`, where a `\let`
+from an undefined name makes the target undefined). It is **false** (known finding C01-d). -/
+def vm_refines_run_full_statement : Prop :=
+  ∀ hist : List Op, (run .fixed VMState.init hist).2 = (Spec.init.runTeX hist).2
+
+/-- What holds of it: every program that never executes a `\let` from an undefined name
+(`Spec.noUndefLet`, decidable, computed along the run) produces TeX's outputs. Together with
+`vm_refines_run` this isolates the defect: the code differs from TeX in that one assignment's
+*value* (it keeps the old meaning), never in how assignments are scoped. -/
+theorem vm_refines_run_partial (hist : List Op) (h : Spec.noUndefLet Spec.init hist = true) :
+    (run .fixed VMState.init hist).2 = (Spec.init.runTeX hist).2 :=
+  C01.outs_eq_tex hist h
+
+/-- C01-d at its witness `\def\ta{m1}\let\ta=\tb \ta` (`\tb` undefined): the code still expands `\ta`
+to `m1`, in TeX `\ta` is undefined. -/
+theorem vm_refines_run_full_statement_false : ¬ vm_refines_run_full_statement := by
+  intro h
+  exact absurd (h [.define 0 (.cs 0) (.mac 1), .define 0 (.cs 0) (.lcs (.cs 1)), .read (.cmd (.cs 0))])
+    (by decide)
+
+-- non-vacuity of the hypothesis of `vm_refines_run_partial`: a program with `\let`s from defined names
+example : Spec.noUndefLet Spec.init
+    [.define 0 (.cs 1) (.mac 1), .beginGroup, .define 1 (.cs 0) (.lcs (.cs 1)), .define 0 (.act 0) (.lcs (.cs 0)),
+     .endGroup, .read (.cmd (.cs 0)), .read (.cmd (.act 0))] = true := by decide
+-- … and the same with the source undefined violates it
+example : Spec.noUndefLet Spec.init [.beginGroup, .define 1 (.cs 0) (.lcs (.cs 1))] = false := by decide
 
 /-- State-level form: after every program the VM state is related to the specification's state by
 the simulation relation `R` (the flag is `Local`, C20's invariant holds for the three scoped
